@@ -349,7 +349,7 @@ def judgePrim (ct ot : List String) : Option Verdict := do
   none
 
 /-- `oracle_c04 seal`: the Lean side as a *sender*. One request per line
-(`stack suite key iv mac epoch seq typ ver nonce payload`), one sealed record (hex) per answer.
+(`stack suite key iv mac epoch seq typ ver nonce payload [tail]`), one sealed record (hex) per answer.
 The Go driver feeds these records to the real `decrypt`. -/
 def sealLine (line : String) : String :=
   let t := tokens line
@@ -365,7 +365,13 @@ def sealLine (line : String) : String :=
     let seq ← kvNat t "seq"
     let nonce ← kvHex t "nonce"
     let payload ← kvHex t "payload"
-    pure (hex (Spec.KeySchedule.sealRecord sm m ⟨mac, key, iv⟩ sst typ ver epoch seq nonce payload))
+    -- `tail=`: the bytes after content ‖ MAC of a CBC record, verbatim (long legal padding, or a
+    -- damaged one); without it the minimal padding of the standard
+    match m, kvHex t "tail" with
+    | .cbc, some tail =>
+      if (payload.length + sm.hLen + tail.length) % 16 != 0 then none
+      else pure (hex (Spec.KeySchedule.sealCBCTail sm ⟨mac, key, iv⟩ sst typ ver epoch seq nonce payload tail))
+    | _, _ => pure (hex (Spec.KeySchedule.sealRecord sm m ⟨mac, key, iv⟩ sst typ ver epoch seq nonce payload))
   r.getD "BAD"
 
 partial def sealService : IO Unit := do
